@@ -62,7 +62,7 @@ def render_job(job):
         out = asyncio.run(t.render_async()) if job.get("async") else t.render()
         res = {"outcome": "ok", "len": len(out), "peak": (max(REC) - here) if REC else 0}
     except BaseException as e:
-        res = {"outcome": classify(e)}
+        res = {"outcome": classify(e), "probes": len(REC), "cause": type(e.__cause__).__name__ if e.__cause__ is not None else ""}
     res["secs"] = round(time.time() - t0, 3)
     return res
 
@@ -383,6 +383,35 @@ def run(ck: Check) -> None:
         ck.violation("correspondence", "c09-within-stack-model", f"Terminate.self_outcome does not give ContextDepthError at every block depth: {got}",
                      {"type": "obligation", "broken": "Terminate.self_outcome (theorem C09_within_stack)"}, no_input=True)
 
+    # ---- B2: recursion THROUGH an overriding inheritance block (outside the interpreter model; oracle only): a template that
+    # extends a base and, inside its overriding block, includes itself (directly or through another partial) is cut off by the depth
+    # guard -- ContextDepthError after at most context_depth_limit + 2 levels, not a stack overflow relabelled afterwards
+    PR = "{{ 0 | probe }}"
+    fams_b2 = {
+        "include-self-in-block": {"t0": "{% extends 'base' %}{% block c %}" + PR + "{% include 't0' %}{% endblock %}", "base": "<{% block c %}{% endblock %}>"},
+        "include-self-via-partial": {"t0": "{% extends 'base' %}{% block c %}" + PR + "{% include 't1' %}{% endblock %}", "t1": "{% include 't0' %}",
+                                     "base": "<{% block c %}{% endblock %}>"},
+        "include-self-in-nested-if": {"t0": "{% extends 'base' %}{% block c %}{% if true %}" + PR + "{% include 't0' %}{% endif %}{% endblock %}",
+                                      "base": "<{% block c %}{% endblock %}>"},
+        "include-self-through-super": {"t0": "{% extends 'mid' %}{% block c %}" + PR + "{{ block.super }}{% endblock %}",
+                                       "mid": "{% extends 'base' %}{% block c %}{% include 't0' %}{% endblock %}", "base": "<{% block c %}{% endblock %}>"},
+    }
+    jobs, meta = [], []
+    for name, tpl in fams_b2.items():
+        for limit in (5, 30):
+            for a in (False, True):
+                jobs.append({"templates": tpl, "async": a, "limit": limit})
+                meta.append((name, limit, a))
+    for (name, limit, a), r in zip(meta, children(jobs, timeout=180, per=4)):
+        ck.count(f"B2.{r['outcome']}")
+        ck.note_case(("B2", name, limit, a), nontrivial=True)
+        bad = r["outcome"] != "EContextDepth" or r.get("probes", 0) > limit + 2 or r.get("cause") == "RecursionError"
+        if bad:
+            ck.violation("impl-violation", f"block-recursion-not-cut-by-depth-guard:{name}",
+                         f"{name} ({'async' if a else 'sync'}, context_depth_limit {limit}): {r} -- expected ContextDepthError from the depth "
+                         f"guard after at most {limit + 2} levels",
+                         {"type": "render-depth", "templates": fams_b2[name], "async": a, "limit": limit, "max_probes": limit + 2})
+
     # ---- C: lax mode, two recursive tags
     jobs, meta = [], []
     for kind in ("include", "render"):
@@ -504,6 +533,11 @@ def replay(data) -> int:
         print("templates:", case["templates"])
         print("outcome:", r, "wanted one of", case["want"])
         bad = r["outcome"] not in case["want"]
+    elif case.get("type") == "render-depth":
+        r = child([{k: v for k, v in case.items() if k in ("templates", "limit", "async")}], timeout=120)[0]
+        print("templates:", case["templates"], "context_depth_limit:", case["limit"])
+        print("outcome:", r)
+        bad = r["outcome"] != "EContextDepth" or r.get("probes", 0) > case["max_probes"] or r.get("cause") == "RecursionError"
     elif case.get("type") == "analyze":
         r = child([{"job": "analyze", "templates": case["templates"], "api": case["api"], "caching": case["caching"]}], timeout=60)[0]
         print("analysis:", r, "wanted one of", case["want"])
